@@ -54,6 +54,7 @@ def run(ctx: core.Ctx) -> int:
         if py.get(k) is None:
             ctx.error(f"python side: no normal form derived for {k}")
     w = witness.Witness(ctx)
+    w.prefetch([witness.Valuation(ctl, cal) for ctl in (False, True) for cal in (False, True)] + [witness.Valuation(True, True, False)])
     n_pairs = 0
     for ctl in (False, True):
         for cal in (False, True):
